@@ -49,4 +49,63 @@ mod verif_cex_lock {
         }
         let _ = std::fs::remove_file(&p);
     }
+    // ---- C13 for a file that does NOT EXIST yet: several processes are released at the same instant on a fresh path (this test
+    // binary re-executed as workers).  A worker whose open fails or panics is tolerated (the unmodified library makes the loser of
+    // the creation race fail); what must never happen is two workers INSIDE at once (each raises a witness file with create_new
+    // while inside) or a committed marker missing at the end.  Bound: 12 rounds x 3 workers.  Finding nothing proves nothing.
+    const ROLE: &str = "VERIF_CEX_LOCK_WORKER";
+    fn now_ns() -> u128 { std::time::SystemTime::now().duration_since(std::time::UNIX_EPOCH).unwrap().as_nanos() }
+    #[test]
+    fn cex_lock_race_worker() {
+        let id: u64 = match std::env::var(ROLE) { Ok(v) => v.parse().unwrap(), Err(_) => return };
+        let path = std::path::PathBuf::from(std::env::var("VERIF_CEX_LOCK_PATH").unwrap());
+        let start: u128 = std::env::var("VERIF_CEX_LOCK_START").unwrap().parse().unwrap();
+        while now_ns() < start { std::hint::spin_loop(); }
+        let pp = path.clone();
+        let db = match std::panic::catch_unwind(move || OpenOptions::new().pagesize(1024).open(&pp)) { Ok(Ok(db)) => db, _ => { println!("\nLOCKRACE:OPENFAIL {}", id); return; } };
+        let witness = path.with_extension("inside");
+        let alone = std::fs::OpenOptions::new().write(true).create_new(true).open(&witness).is_ok();
+        let committed = (|| { let tx = db.tx(true).ok()?; tx.get_or_create_bucket("markers").ok()?.put(id.to_be_bytes().to_vec(), "x").ok()?; tx.commit().ok() })().is_some();
+        std::thread::sleep(std::time::Duration::from_millis(15));
+        if alone { let _ = std::fs::remove_file(&witness); }
+        drop(db);
+        println!("\nLOCKRACE:INSIDE {} {} {}", id, alone, committed);
+    }
+    #[test]
+    fn cex_lock_creation_race() {
+        if std::env::var(ROLE).is_ok() { return; }
+        let exe = std::env::current_exe().unwrap();
+        for round in 0..12u64 {
+            let path = std::env::temp_dir().join(format!("jammdb-cex-lockrace-{}-{}.db", std::process::id(), round));
+            let _ = std::fs::remove_file(&path); let _ = std::fs::remove_file(path.with_extension("inside"));
+            let start = now_ns() + 150_000_000;
+            let kids: Vec<_> = (0..3u64).map(|w| std::process::Command::new(&exe)
+                .args(["cex_lock_race_worker", "--nocapture", "--test-threads=1"])
+                .env(ROLE, (round * 10 + w).to_string()).env("VERIF_CEX_LOCK_PATH", &path)
+                .env("VERIF_CEX_LOCK_START", (start + if round % 2 == 1 && w == 2 { 5_000_000 } else { 0 }).to_string())
+                .stdout(std::process::Stdio::piped()).stderr(std::process::Stdio::null()).spawn()).collect();
+            let mut inside: Vec<(u64, bool, bool)> = Vec::new();
+            for k in kids {
+                let out = match k.and_then(|c| c.wait_with_output()) { Ok(o) => String::from_utf8_lossy(&o.stdout).to_string(), Err(_) => { println!("cex lock race: cannot re-execute the test binary, skipped"); return; } };
+                for l in out.lines() { if let Some(r) = l.strip_prefix("LOCKRACE:INSIDE ") { let f: Vec<&str> = r.split_whitespace().collect(); inside.push((f[0].parse().unwrap(), f[1] == "true", f[2] == "true")); } }
+            }
+            let what = format!("history: round {}: three processes open the same NOT YET EXISTING file at the same instant (page size 1024); {} of them got in", round, inside.len());
+            if let Some((id, _, _)) = inside.iter().find(|(_, alone, _)| !*alone) {
+                println!("CEX OpenOptions::open (C13 two openers are never inside at the same time): {}: worker {} found another worker still inside the database (its witness file was raised)", what, id);
+                panic!("c13-race-inside");
+            }
+            // every marker a worker committed while it held the database is in the file
+            let pp = path.clone();
+            let seen: Option<Vec<u64>> = std::panic::catch_unwind(move || { let db = OpenOptions::new().pagesize(1024).open(&pp).ok()?; let tx = db.tx(false).ok()?; let b = tx.get_bucket("markers").ok()?; Some(b.kv_pairs().map(|kv| u64::from_be_bytes(kv.key().try_into().unwrap())).collect()) }).ok().flatten();
+            let want: Vec<u64> = inside.iter().filter(|(_, _, c)| *c).map(|(id, _, _)| *id).collect();
+            if !want.is_empty() {
+                let seen = seen.unwrap_or_default();
+                if let Some(miss) = want.iter().find(|id| !seen.contains(id)) {
+                    println!("CEX OpenOptions::open (C13 a later opener sees everything committed before): {}: the marker worker {} committed while it held the database is not in the file afterwards (markers found: {:?})", what, miss, seen);
+                    panic!("c13-race-lost");
+                }
+            }
+            let _ = std::fs::remove_file(&path); let _ = std::fs::remove_file(path.with_extension("inside"));
+        }
+    }
 }
